@@ -85,7 +85,14 @@ func normalizeDocument(schema *Schema, doc *ast.Document, operationName string) 
 	}
 
 	newOp := cloneOperation(op)
-	ctx.normalizeSelectionSet(newOp.SelectionSet, rootType)
+	// Literals inside named fragments stay in the text. Extracting the
+	// operation's own literals next to them would turn fields that merge
+	// (f(n:3) here and f(n:3) in a spread fragment) into fields with
+	// differing arguments, so an operation that spreads fragments is
+	// keyed as written.
+	if !selectionSpreadsFragments(newOp.SelectionSet) {
+		ctx.normalizeSelectionSet(newOp.SelectionSet, rootType)
+	}
 
 	if len(ctx.synthArgs) == 0 {
 		// No literals to extract — return early. Fingerprint the
@@ -143,6 +150,29 @@ func fingerprintDocument(doc *ast.Document, op *ast.OperationDefinition, operati
 	}
 	sum := sha256.Sum256([]byte(b.String()))
 	return hex.EncodeToString(sum[:])
+}
+
+// selectionSpreadsFragments reports whether a named fragment is spread
+// anywhere below sel.
+func selectionSpreadsFragments(sel *ast.SelectionSet) bool {
+	if sel == nil {
+		return false
+	}
+	for _, isel := range sel.Selections {
+		switch n := isel.(type) {
+		case *ast.Field:
+			if selectionSpreadsFragments(n.SelectionSet) {
+				return true
+			}
+		case *ast.InlineFragment:
+			if selectionSpreadsFragments(n.SelectionSet) {
+				return true
+			}
+		case *ast.FragmentSpread:
+			return true
+		}
+	}
+	return false
 }
 
 // normCtx threads state across the recursive walk: schema for type
